@@ -39,7 +39,7 @@ pub fn run_c14(args: &Args) {
         "C14",
         "modelcheck c14",
         args,
-        "every single-operator case re-run with each input independently passed as a permuted (non-contiguous strides) view, a stepped slice of a larger buffer whose gaps hold NaN / i32::MIN, and (when its leading slices are equal) a stride-0 broadcast view; outputs compared with the all-contiguous run (values exactly, -0 = +0 and NaN = NaN; accumulation tolerance for matmul/conv/reduction/normalisation operators). non-trivial = the alternative layout could be constructed for that input and the operator ran; distinct by (case, input set, input, layout)",
+        "every single-operator case re-run with each input independently passed as a permuted view (all axes reversed; last two axes swapped), a stepped slice (step 2 along the last axis; step 3 along the first) of a larger buffer whose gaps hold NaN / i32::MIN, a stride-0 broadcast view over the leading axis when its slices are equal, and - for every axis - a stride-0 broadcast along that axis after making the input constant along it (with its own contiguous baseline); outputs compared with the all-contiguous run (values exactly, -0 = +0 and NaN = NaN; accumulation tolerance for matmul/conv/reduction/normalisation operators). non-trivial = the alternative layout could be constructed for that input and the operator ran; distinct by (case, input set, input, layout)",
     );
     rep.max_samples = 10;
     let cases = replay_or_pack(args);
@@ -58,9 +58,38 @@ pub fn run_c14(args: &Args) {
                 rep.count(&format!("run_error:{}", op));
                 continue;
             };
-            for (pos, _) in inputs.iter().enumerate() {
-                for kind in [LayoutKind::Permuted, LayoutKind::Stepped, LayoutKind::Broadcast] {
-                    let Some(staged) = Staged::new(inputs[pos], kind) else { continue };
+            // (input position, layout, axis, replacement logical tensor, stored tensor)
+            let mut variants: Vec<(usize, LayoutKind, usize, Option<TData>, Option<TData>)> = Vec::new();
+            for (pos, t) in inputs.iter().enumerate() {
+                for kind in [LayoutKind::Permuted, LayoutKind::Swapped, LayoutKind::Stepped, LayoutKind::SteppedOuter, LayoutKind::Broadcast] {
+                    variants.push((pos, kind, 0, None, None));
+                }
+                // Stride-0 along every axis: the logical input is first made constant
+                // along that axis, and gets its own contiguous baseline.
+                for axis in 0..t.shape.len() {
+                    if let Some((flat, reduced)) = flatten_axis(t, axis) {
+                        variants.push((pos, LayoutKind::BroadcastAxis, axis, Some(flat), Some(reduced)));
+                    }
+                }
+            }
+            for (pos, kind, axis, flat, reduced) in &variants {
+                let (pos, kind, axis) = (*pos, *kind, *axis);
+                {
+                    let mut inputs: Vec<&TData> = inputs.clone();
+                    let flat_base;
+                    let base: &Vec<TData> = if let Some(flat) = flat {
+                        inputs[pos] = flat;
+                        match run_simple(&model, &inputs, &c.outputs, None) {
+                            Ok(b) => {
+                                flat_base = b;
+                                &flat_base
+                            }
+                            Err(_) => continue,
+                        }
+                    } else {
+                        &base
+                    };
+                    let Some(staged) = Staged::new(reduced.as_ref().unwrap_or(inputs[pos]), kind) else { continue };
                     rep.eval();
                     let others: Vec<Value> = inputs.iter().map(|t| t.to_value()).collect();
                     let mut ins: Vec<(NodeId, ValueOrView)> = Vec::new();
@@ -80,32 +109,33 @@ pub fn run_c14(args: &Args) {
                         continue;
                     }
                     rep.count(&format!("layout_{:?}", kind));
+                    let kind_name = if kind == LayoutKind::BroadcastAxis { format!("BroadcastAxis{}of{}", axis, inputs[pos].shape.len()) } else { format!("{:?}", kind) };
                     match run_prepared(&model, ins, &c.outputs, None) {
                         Err(e) => {
                             // The contiguous run succeeded, so failing for another layout of the
                             // same logical input is a layout dependence.
                             rep.violation(
-                                format!("C14|{}|{}|{:?}|input{}|error|in={}", op, c.variant["attrs"], kind, pos, in_shapes(&inputs)),
-                                format!("{} fails when input {} is passed as a {:?} view but succeeds with contiguous inputs: {}", op, pos, kind, e),
-                                json!({"case": small_case_json(c), "input_set": k, "input": pos, "layout": format!("{:?}", kind)}),
+                                format!("C14|{}|{}|{}|input{}|error|in={}", op, c.variant["attrs"], kind_name, pos, in_shapes(&inputs)),
+                                format!("{} fails when input {} is passed as a {} view but succeeds with contiguous inputs: {}", op, pos, kind_name, e),
+                                json!({"case": small_case_json(c), "input_set": k, "input": pos, "layout": kind_name}),
                             );
                         }
                         Ok(got) => {
-                            rep.nontrivial(&(&c.id, k, pos, kind));
+                            rep.nontrivial(&(&c.id, k, pos, kind, axis));
                             rep.count(&format!("op:{}", op));
-                            for (g, b) in got.iter().zip(&base) {
+                            for (g, b) in got.iter().zip(base) {
                                 if let Some(diff) = compare(g, b, tol_for_layout(&c.tol)) {
                                     rep.violation(
-                                        format!("C14|{}|{}|{:?}|input{}|{}|in={}", op, c.variant["attrs"], kind, pos, mismatch_kind(&diff), in_shapes(&inputs)),
-                                        format!("{} ({}) with input {} as a {:?} view differs from the contiguous run: {}", op, c.variant["attrs"], pos, kind, diff),
-                                        json!({"case": small_case_json(c), "input_set": k, "input": pos, "layout": format!("{:?}", kind),
+                                        format!("C14|{}|{}|{}|input{}|{}|in={}", op, c.variant["attrs"], kind_name, pos, mismatch_kind(&diff), in_shapes(&inputs)),
+                                        format!("{} ({}) with input {} as a {} view differs from the contiguous run: {}", op, c.variant["attrs"], pos, kind_name, diff),
+                                        json!({"case": small_case_json(c), "input_set": k, "input": pos, "layout": kind_name,
                                                "got": g.to_json(), "contiguous": b.to_json()}),
                                     );
                                     break;
                                 }
                             }
                             if rep.wants_sample() && rep.samples.iter().all(|s| s["op"] != json!(op)) {
-                                rep.sample(|| json!({"op": op, "case": c.id, "input": pos, "layout": format!("{:?}", kind), "in": in_shapes(&inputs)}));
+                                rep.sample(|| json!({"op": op, "case": c.id, "input": pos, "layout": kind_name, "in": in_shapes(&inputs)}));
                             }
                         }
                     }
